@@ -2,18 +2,16 @@ SPECIFICATION MCSpec
 CONSTANTS
   Fix = {"tail", "suffix", "epoch"}
   Taints = {}
-  GenMode = FALSE
+  GenMode = TRUE
   MaxOps = 3
-  MaxPost = 2
+  MaxPost = 0
   MaxRecs = 4
   MaxBatch = 2
   MaxEpoch = 2
-  MaxHit = 3
+  MaxHit = 1
   CapSet = {2}
   RetSet = {0, 2}
   CompactSet = {FALSE, TRUE}
   Keys = {"a", "nil"}
-INVARIANTS NoLoop MemMatchesFiles
-PROPERTIES StepsOK
-VIEW MCView
+VIEW GenView
 CHECK_DEADLOCK FALSE
